@@ -414,6 +414,11 @@ func (g *gen) lineS(isOption bool) *LineS {
 	}
 	l.Parts = append(l.Parts, Part{Text: text})
 	if g.cfg.CountLines {
+		// two counters inside ONE expression (a result that is still held while the next call runs)
+		if len(g.titles) > 0 {
+			vc := func(t string) *Expr { return &Expr{K: eCall, S: "visited_count", A: []*Expr{{K: eStr, S: t}}} }
+			l.Parts = append(l.Parts, Part{Text: " x="}, Part{E: g.bin("+", vc(g.titles[0]), g.bin("*", vc(g.titles[len(g.titles)-1]), numLit(1000)))})
+		}
 		for _, t := range append(append([]string{}, g.titles...), "nowhere", "L1") {
 			l.Parts = append(l.Parts, Part{Text: " "}, Part{E: &Expr{K: eCall, S: "visited_count", A: []*Expr{{K: eStr, S: t}}}})
 			l.Parts = append(l.Parts, Part{Text: ","}, Part{E: &Expr{K: eCall, S: "visited", A: []*Expr{{K: eStr, S: t}}}})
